@@ -145,6 +145,30 @@ def check_case(case):
       nt = len(kinds) >= 2 and partial
       if nt:
         labels.add('nontrivial')
+      # second act: bind what was missing (where the lists permit) and repeat the call -- the
+      # failure must not have left anything behind
+      if all(configurable_param(p) for p in missing):
+        for p in missing:
+          gin.bind_parameter(('', built.selector, p), 'LATE:' + p)
+          model[('', p)] = 'LATE:' + p
+        app2 = M.overlay(model, active)
+        new_args = list(args)
+        for i, p in req_pos:
+          new_args[i] = app2[p]
+        new_kwargs = {k: v for k, v in kwargs.items() if v is not gin.REQUIRED}
+        verdict2, exp2 = M.expected_call(sig, new_args, new_kwargs, app2)
+        try:
+          rec2 = built.call(args, kwargs)
+          raised2 = None
+        except (RuntimeError, ValueError, TypeError) as e:
+          raised2 = e
+        if verdict2 == 'ok':
+          require(raised2 is None, 'still-failing-after-binding',
+                  lambda: f'{raised2!r} after binding {missing}')
+          got2 = {k: rec2[k] for k in ('named', 'args', 'kw')}
+          require(got2 == exp2 and not contains_sentinel(got2), 'arguments-differ-after-binding',
+                  lambda: f'got {got2}\n model {exp2}')
+          labels.add('outcome:filled-after-late-binding')
       return ok(labels, nt)
     # every REQUIRED is filled: substitute and fall back to the plain call model
     new_args = list(args)
